@@ -1,6 +1,7 @@
 import Rdpgw.Oracle.Codec
 import Rdpgw.Props.C01
 import Rdpgw.Props.C16
+import Rdpgw.Props.C03
 
 /-! Oracle commands for the wire layer: `frame`, `tunnel`, `mon`, `decode`. -/
 
@@ -36,8 +37,13 @@ def parseEnv (m : List (String × String)) : Env :=
   let clients := getHexList m "clients"
   let hosts := getHexList m "hosts"
   let dial := getHexList m "dial"
+  -- with `pmode=` the host policy is the one main.go installs (C03.installed), else a plain allow list
+  let hostOk : Bytes → Bool :=
+    if get m "pmode" = "" then fun h => hosts.contains h
+    else C03.installed (getBool m "ptoken") (getHex m "pmode") (getHexList m "phosts") (getHex m "puser")
+      (getBool m "pverify") (getHex m "pthost") (getHex m "ptip") (getHex m "prip")
   { cookieOk := fun c => cookies.contains c, clientOk := fun c => clients.contains c,
-    hostOk := fun h => hosts.contains h, dialOk := fun h => dial.contains h }
+    hostOk := hostOk, dialOk := fun h => dial.contains h }
 
 def evStr : Ev → String
   | .resp r => s!"S{hexOf r.wire}"
